@@ -37,6 +37,29 @@ from octave_mcp.core.validator import _count_literal_zones
 from octave_mcp.mcp.base_tool import BaseTool, SchemaBuilder
 
 
+class _YamlDumper(yaml.Dumper):
+    """yaml.Dumper that keeps U+0085 (NEL) in strings.
+
+    PyYAML writes NEL raw inside plain and single-quoted scalars, where a YAML
+    reader treats it as a line break and folds it into a space. Double-quoted
+    style escapes it (\\N), so the value reads back unchanged.
+    """
+
+
+def _represent_str(dumper: yaml.Dumper, data: str) -> yaml.Node:
+    if "\x85" in data:
+        return dumper.represent_scalar("tag:yaml.org,2002:str", data, style='"')
+    return dumper.represent_str(data)
+
+
+_YamlDumper.add_representer(str, _represent_str)
+
+
+def _dump_yaml(data: Any) -> str:
+    """Serialize converted AST data as YAML (block style, source key order)."""
+    return yaml.dump(data, Dumper=_YamlDumper, allow_unicode=True, sort_keys=False, default_flow_style=False)
+
+
 def _ast_to_dict(doc: Document) -> dict[str, Any]:
     """Convert AST Document to dictionary for JSON/YAML export.
 
@@ -350,7 +373,7 @@ META:
         elif output_format == "yaml":
             # Convert filtered AST to dictionary, then serialize as YAML
             data = _ast_to_dict(result.filtered_doc)
-            output = yaml.dump(data, allow_unicode=True, sort_keys=False, default_flow_style=False)
+            output = _dump_yaml(data)
             return {
                 "output": output,
                 "lossy": result.lossy,
